@@ -2,7 +2,7 @@
 import ast
 
 from .. import q
-from ..cfg import guards, guard_atoms, build_cfg
+from ..cfg import atoms as cfg_atoms, guards, guard_atoms, build_cfg
 from ..prog import strip_cast, dotted
 from .common import ApplyStep, labelled_sites, obj_is
 
@@ -27,6 +27,16 @@ def list_sink(call):
             return par.func.value.id, par.func.attr
     if isinstance(par, ast.AugAssign) and isinstance(par.op, ast.Add) and isinstance(par.target, ast.Name) and par.value is call:
         return par.target.id, 'extend'
+    if isinstance(par, ast.Assign) and len(par.targets) == 1 and isinstance(par.targets[0], ast.Name) and par.value is call:
+        # through a temporary: tmp = list(call) ... L.extend(tmp), the extend always following the definition
+        tmp = par.targets[0].id
+        F = q.enclosing(par, (ast.FunctionDef,))
+        if F is not None and len(q.assigned_value(F, tmp)) == 1:
+            uses = [n for n in q.walk(F, False) if isinstance(n, ast.Name) and n.id == tmp and isinstance(n.ctx, ast.Load)]
+            sinks = [u for u in uses if isinstance(u._parent, ast.Call) and isinstance(u._parent.func, ast.Attribute) and u._parent.func.attr == 'extend'
+                     and isinstance(u._parent.func.value, ast.Name) and u in u._parent.args]
+            if len(sinks) == 1 and len(uses) == 1 and q.always_followed_by(F, par, q.enclosing_stmt(sinks[0])):
+                return sinks[0]._parent.func.value.id, 'extend'
     return None, None
 
 
@@ -246,6 +256,14 @@ def rules_macro(run):
             if good:
                 at = guard_atoms(inl[0], stop=outer[0])
                 good = at in ([('truthy', tv + '.event', '')], [('is not', tv + '.event', 'None')])
+            if not good and len(rets) == 1:
+                # return next((step.event for step in self._steps if step.event), None)
+                v = strip_cast(rets[0].value)
+                if isinstance(v, ast.Call) and isinstance(v.func, ast.Name) and v.func.id == 'next' and len(v.args) == 2 and isinstance(v.args[0], ast.GeneratorExp) \
+                        and isinstance(v.args[1], ast.Constant) and v.args[1].value is None:
+                    g = v.args[0]
+                    good = len(g.generators) == 1 and g.generators[0] is outer[0] and q.unparse(g.elt) == tv + '.event' and len(g.generators[0].ifs) == 1 \
+                        and cfg_atoms(g.generators[0].ifs[0], True) in ([('truthy', tv + '.event', '')], [('is not', tv + '.event', 'None')])
             run.check(good, r, m.short, 'first non-None event', 'event must be the first event carried by a micro step', M)
     for prop, f in (('steps', fld), ('time', stored.get('time', '_time'))):
         m = ci.methods.get(prop)
